@@ -201,6 +201,8 @@ pub struct Doc {
     pub members_one_line: bool,
     /// Leading comment line (free text, ASCII)
     pub banner: Option<String>,
+    /// Windows line endings
+    pub crlf: bool,
 }
 
 fn render_doc_comment(doc: &Option<String>, out: &mut String, sep: &str) {
@@ -364,6 +366,9 @@ impl Doc {
         }
         s.push_str(if self.members_one_line { " " } else { "\n" });
         s.push_str("}\n");
+        if self.crlf {
+            s = s.replace('\n', "\r\n");
+        }
         s
     }
 
@@ -398,6 +403,7 @@ impl Doc {
         push(&|d| d.annots.clear());
         push(&|d| d.doc = None);
         push(&|d| d.banner = None);
+        push(&|d| d.crlf = false);
         push(&|d| d.oneway = false);
         for (i, m) in self.members.iter().enumerate() {
             match m {
@@ -521,7 +527,7 @@ impl Universe {
             }
             if rng.pct(50) {
                 let pb = pkgs[0].clone();
-                let pv = [pb.to_uppercase(), format!("{pb}.{pb}"), format!("x.{pb}"), format!("{pb}x")];
+                let pv = [pb.to_uppercase(), format!("{pb}.{pb}"), format!("x.{pb}"), format!("{pb}x"), format!("{pb}.{}", names[0])];
                 let v = rng.pick(&pv).clone();
                 if !pkgs.contains(&v) {
                     pkgs.push(v);
@@ -561,6 +567,9 @@ pub struct GenKnobs {
     pub p_heavy: u32,
     /// per member slot: chance of an extra junk member (recovered syntax error)
     pub p_junk: u32,
+    pub p_crlf: u32,
+    /// imports that extend a key by one segment, or are a prefix of a key
+    pub p_nested_import: u32,
 }
 
 impl GenKnobs {
@@ -580,12 +589,14 @@ impl GenKnobs {
             p_doc: *rng.pick(&[0, 15, 40]),
             p_heavy: *rng.pick(&[0, 0, 8, 30]),
             p_junk: *rng.pick(&[0, 0, 12, 35]),
+            p_crlf: *rng.pick(&[0, 0, 15, 50]),
+            p_nested_import: *rng.pick(&[0, 8, 25]),
         }
     }
 
     pub fn describe(&self) -> String {
         format!(
-            "hol={} mol={} imp<={} fwd<={} mem<={} amb={} unk={} blt={} rep={} cont={} ann={} doc={} heavy={} junk={}",
+            "hol={} mol={} imp<={} fwd<={} mem<={} amb={} unk={} blt={} rep={} cont={} ann={} doc={} heavy={} junk={} crlf={} nested={}",
             self.p_header_one_line,
             self.p_members_one_line,
             self.max_imports,
@@ -599,7 +610,9 @@ impl GenKnobs {
             self.p_annot,
             self.p_doc,
             self.p_heavy,
-            self.p_junk
+            self.p_junk,
+            self.p_crlf,
+            self.p_nested_import
         )
     }
 }
@@ -749,6 +762,17 @@ pub fn gen_header(rng: &mut Rng, u: &Universe, k: &GenKnobs) -> (Vec<String>, Ve
             pk.push("a.b".to_owned());
             let p = rng.pick(&pk).clone();
             format!("{p}.{simple}")
+        } else if rng.pct(k.p_nested_import) {
+            // one segment more than a key (nested-type look), or a proper prefix of a key
+            let base = if !imports.is_empty() && rng.pct(40) { rng.pick(&imports).clone() } else { rng.pick(&keys).clone() };
+            if rng.pct(60) {
+                format!("{base}.{}", rng.pick(&u.names))
+            } else {
+                match base.rsplit_once('.') {
+                    Some((prefix, _)) if prefix.contains('.') => prefix.to_owned(),
+                    _ => format!("{base}.Inner"),
+                }
+            }
         } else if rng.pct(k.p_unknown_import) {
             rng.pick(&["x.y.Unknown", "p.Missing", "zz.Foo", "zz.Bar"])
                 .to_string()
@@ -969,6 +993,7 @@ pub fn gen_doc(
         } else {
             None
         },
+        crlf: rng.pct(k.p_crlf),
     }
 }
 
